@@ -42,9 +42,30 @@ Lemma pretty_roundtrip_skeleton : forall (bytes kid : Type) (ser : node -> bytes
   forall t pk pty fs' d' c, pk <> PXml ->
   d_save node bytes kid ser par (pretty textual crefill true) stamp entries kids mime rdf0 FIXED (fst s) (snd s) t pk pty = (fs', d', true) ->
   c_open bytes kid fs' (tgt_id t) false = Some c ->
-  forall n, view node bytes kid par skeleton fs' (mkD c []) n = view node bytes kid par skeleton (fst s) d' n.
+  forall n, view node bytes kid par node skeleton fs' (mkD c []) n = view node bytes kid par node skeleton (fst s) d' n.
 Proof.
   intros bytes kid ser par stamp entries with_entries kids mime mime_bytes rdf0 Hps s0 os I s t pk pty fs' d' c Hpk Hs Ho n.
-  apply (roundtrip_reachable node bytes kid ser par (pretty textual crefill true) stamp entries with_entries kids mime mime_bytes rdf0 skeleton Hps s0 os I t pk pty fs' d' c Hpk); [|exact Hs|exact Ho].
+  apply (roundtrip_reachable node bytes kid ser par (pretty textual crefill true) stamp entries with_entries kids mime mime_bytes rdf0 node skeleton Hps s0 os I t pk pty fs' d' c Hpk); [|exact Hs|exact Ho].
   intros _ x. apply gen_pretty_skeleton.
+Qed.
+
+(* ... and for the whole projection of C11: structure, attributes and the ODF reading of every paragraph and heading *)
+Definition reading (t : node) : node * list str := (skeleton t, readable_ws t).
+Lemma reading_pretty : forall t, reading (pretty textual crefill true t) = reading t.
+Proof. intros t. unfold reading. rewrite gen_pretty_skeleton, gen_pretty_text. reflexivity. Qed.
+
+Lemma pretty_roundtrip_reading : forall (bytes kid : Type) (ser : node -> bytes) (par : bytes -> node) (stamp : node -> node)
+    (entries : node -> mentries) (with_entries : mentries -> node -> node) (kids : node -> list kid) (mime : bytes -> mtype)
+    (mime_bytes : mtype -> bytes) (rdf0 : bytes),
+  (forall x, par (ser x) = x) ->
+  forall (s0 : fsys bytes kid * document node bytes) os, SInv node bytes kid s0 ->
+  let s := run node bytes kid ser par (pretty textual crefill true) stamp entries with_entries kids mime mime_bytes rdf0 FIXED s0 os in
+  forall t pk pty fs' d' c, pk <> PXml ->
+  d_save node bytes kid ser par (pretty textual crefill true) stamp entries kids mime rdf0 FIXED (fst s) (snd s) t pk pty = (fs', d', true) ->
+  c_open bytes kid fs' (tgt_id t) false = Some c ->
+  forall n, view node bytes kid par (node * list str) reading fs' (mkD c []) n = view node bytes kid par (node * list str) reading (fst s) d' n.
+Proof.
+  intros bytes kid ser par stamp entries with_entries kids mime mime_bytes rdf0 Hps s0 os I s t pk pty fs' d' c Hpk Hs Ho n.
+  apply (roundtrip_reachable node bytes kid ser par (pretty textual crefill true) stamp entries with_entries kids mime mime_bytes rdf0 (node * list str)%type reading Hps s0 os I t pk pty fs' d' c Hpk); [|exact Hs|exact Ho].
+  intros _ x. apply reading_pretty.
 Qed.
